@@ -166,7 +166,9 @@ func c11Retrieval(tier string, r *Rand, ids []int64, add func(in interface{})) {
 			{{{F: 0, Inc: false, V: ivs(2)}}},
 			{{{F: 0, Inc: true, V: ivs(1)}, {F: 1, Inc: false, V: ivs(3)}}, {{F: 1, Inc: true, V: ivs(k)}}},
 			{{{F: 0, Inc: true, V: ivs(k)}, {F: 1, Inc: true, V: ivs(1, 3)}}, {{F: 0, Inc: false, V: ivs(1)}}, {{F: 1, Inc: true, V: ivs(2)}}, {{F: 0, Inc: true, V: ivs(2)}, {F: 1, Inc: true, V: ivs(2)}}},
-		}[k%4]
+			// include written before exclude on one field, sharing a value: both entries of the conjunction on one list
+			{{{F: 0, Inc: true, V: ivs(1, 2, k)}, {F: 0, Inc: false, V: ivs(2)}}, {{F: 1, Inc: false, V: ivs(3)}, {F: 1, Inc: true, V: ivs(3, 1)}}},
+		}[k%5]
 	}
 	queries := func() []eQuery {
 		var qs []eQuery
